@@ -109,9 +109,15 @@ def parse_list(untagged, verb=b'LIST'):
 
 
 class Model:
-    def __init__(self, names, subscribed=()):
+    def __init__(self, names, subscribed=(), backend='dict'):
         self.names = set(names)          # existing, selectable; INBOX implicit
         self.subscribed = set(subscribed)
+        self.backend = backend
+
+    def parents_missing(self, n):
+        parts = n.split(DELIM)
+        return any(DELIM.join(parts[:i]) not in self.names and DELIM.join(parts[:i]).upper() != 'INBOX'
+                   for i in range(1, len(parts)))
 
     def exists(self, n):
         return n.upper() == 'INBOX' or n in self.names
@@ -119,6 +125,8 @@ class Model:
     def create(self, n):
         if n.upper() == 'INBOX' or n in self.names:
             return b'NO'
+        if self.backend != 'dict' and (self.parents_missing(n) or n.upper().startswith('INBOX' + DELIM)):
+            return b'NO?'          # RFC: superiors SHOULD be created; a backend that refuses instead is accepted
         self.names.add(n)
         return b'OK'
 
@@ -136,7 +144,11 @@ class Model:
             return b'NO'
         if any(n.startswith(b + DELIM) for n in self.names):
             return b'NO?'          # the target is a hierarchy node of existing names: either answer accepted
+        if self.backend != 'dict' and (self.parents_missing(b) or b.startswith(a + DELIM)):
+            return b'NO?'
         if a.upper() == 'INBOX':
+            if self.backend != 'dict':
+                return b'KNOWN-NO'
             self.names.add(b)
             return b'OK'
         moved = {n for n in self.names if n == a or n.startswith(a + DELIM)}
@@ -162,7 +174,7 @@ def ops(tier):
     o = []
     names = NAMES if tier != 'quick' else NAMES[:12]
     for n in names:
-        o += [('create', n), ('delete', n), ('subscribe', n), ('unsubscribe', n), ('status', n)]
+        o += [('create', n), ('delete', n), ('subscribe', n), ('unsubscribe', n), ('status', n), ('append', n)]
     for a, b in [('a', 'z'), ('a', 'ab'), ('a/b', 'a/z'), ('INBOX', 'old'), ('a', 'INBOX'), ('nope', 'x'), ('a', 'a/b2'),
                  ('Sent', 'a'), ('a', 'a'), ('ab', 'a'), ('a', 'inbox'), ('a/b', 'B/b')]:
         o.append(('rename', a, b))
@@ -195,22 +207,40 @@ async def check_lists(c, model, errors, where):
             errors.append(f'{where}: LSUB {ref!r} {pat!r} returned {sorted(gots)}, subscribed names matching are {sorted(wants)}')
 
 
-async def dump(world):
-    mset = world.config.set_cache['testuser'][0]
-    out = {'INBOX': (mset._inbox.uid_validity, sorted(mset._inbox._messages))}
-    for n, m in mset._set.items():
-        out[n] = (m.uid_validity, sorted(m._messages))
+async def dump_via(world, obs=None):
+    """{name: (uidvalidity, messages, uidnext)} observed through the protocol by a second connection of the same user"""
+    out = {}
+    r = await obs.cmd(b'LIST "" *')
+    names = [n for n, a in parse_list(r['untagged']) if b'\\Noselect' not in a]
+    for n in names:
+        r = await obs.cmd(b'STATUS ' + enc(n) + b' (MESSAGES UIDVALIDITY UIDNEXT)')
+        m = re.search(rb'MESSAGES (\d+).*UIDVALIDITY (\d+).*UIDNEXT (\d+)|UIDVALIDITY (\d+)', b' '.join(r['untagged']), re.S)
+        vals = {}
+        for key in (b'MESSAGES', b'UIDVALIDITY', b'UIDNEXT'):
+            mm = re.search(key + rb' (\d+)', b' '.join(r['untagged']))
+            vals[key] = int(mm.group(1)) if mm else None
+        out[n] = (vals[b'UIDVALIDITY'], vals[b'MESSAGES'], vals[b'UIDNEXT'])
     return out
 
 
-async def scenario(prog, deep_lists):
+async def make_world(backend):
+    if backend == 'dict':
+        w = await World().start()
+        return w, (b'testuser', b'testpass')
+    from .imapdrv import MaildirWorld
+    w = await MaildirWorld(layout='++' if backend == 'maildir++' else 'fs').start()
+    return w, (b'alice', b'apass')
+
+
+async def scenario(prog, deep_lists, backend='dict'):
     errors = []
-    w = await World().start()
-    c = await w.client('c')
-    for n in ('Sent', 'Trash'):
-        pass
+    w, (user, pw) = await make_world(backend)
+    c = await w.client('c', user=user, pw=pw)
+    o = await w.client('o', user=user, pw=pw)
+    async def dump(w_):     # noqa: E306
+        return await dump_via(w_, o)
     start = await dump(w)
-    model = Model([n for n in start if n != 'INBOX'])
+    model = Model([n for n in start if n != 'INBOX'], backend=backend)
     sig = []
     for step, op in enumerate(prog):
         before = await dump(w)
@@ -228,6 +258,11 @@ async def scenario(prog, deep_lists):
             r = await c.cmd(k.upper().encode() + b' ' + enc(op[1]))
             want = b'OK'
             (model.subscribed.add if k == 'subscribe' else model.subscribed.discard)(op[1])
+        elif k == 'append':
+            r = await c.cmd(b'APPEND ' + enc(op[1]) + b' {3+}\r\nm\r\n')
+            want = b'OK' if model.exists(op[1]) else b'NO'
+            if backend == 'dict' and op[1] == 'Trash':
+                want = b'NO'
         else:
             r = await c.cmd(b'STATUS ' + enc(op[1]) + b' (MESSAGES UIDVALIDITY)')
             want = b'OK' if model.exists(op[1]) else b'NO'
@@ -240,6 +275,13 @@ async def scenario(prog, deep_lists):
         after = await dump(w)
         if want == b'NO?':
             model.names = {n for n in after if n != 'INBOX'}
+            if got not in (b'OK', b'NO'):
+                errors.append(f'{where}: answered {got}')
+        elif want == b'KNOWN-NO':
+            if got == b'NO':
+                errors.append(('rename_inbox_unsupported_on_maildir', f'{where}: RENAME of INBOX is refused on the maildir backend (NotSupportedError)'))
+            elif got == b'OK':
+                model.names = {n for n in after if n != 'INBOX'}
         elif got != want:
             errors.append(f'{where}: answered {got.decode()}, the model says {want.decode()}')
         if got != b'OK' and after != before:
@@ -249,39 +291,42 @@ async def scenario(prog, deep_lists):
                 errors.append(f'{where}: mailboxes are {sorted(after)}, model has {sorted(model.names)}')
             if k == 'rename':
                 a, b = op[1], op[2]
-                for n, (uv, uids) in before.items():
+                for n in list(before):
                     if n == a or n.startswith(a + DELIM):
                         tn = b + n[len(a):]
                         if n.upper() == 'INBOX':
-                            if after.get(tn) != (uv, uids) or after['INBOX'][1] != [] or after['INBOX'][0] == uv and False:
+                            if after.get(tn) != before[n] or after['INBOX'][1] != 0:
                                 errors.append(f'{where}: INBOX contents did not move to {tn} leaving INBOX empty: {after.get(tn)} / {after["INBOX"]}')
-                        elif after.get(tn) != (uv, uids):
-                            errors.append(f'{where}: {n} -> {tn} lost its messages / UIDVALIDITY: {before[n]} -> {after.get(tn)}')
-        if errors:
+                        elif after.get(tn) != before[n]:
+                            errors.append(f'{where}: {n} -> {tn} lost its messages / UIDVALIDITY / UIDNEXT: {before[n]} -> {after.get(tn)}')
+        if [e for e in errors if not isinstance(e, tuple)]:
             break
         if deep_lists:
             await check_lists(c, model, errors, where)
             if errors:
                 break
-    if not errors:
+    if not [e for e in errors if not isinstance(e, tuple)]:
         await check_lists(c, model, errors, 'final')
     await w.close()
+    if hasattr(w, 'cleanup'):
+        w.cleanup()
     if c.exception() is not None:
         errors.append(f'connection died: {c.exception()!r}')
-    return errors, tuple(sig)
+    return errors, (backend,) + tuple(sig)
 
 
 def _worker(args):
-    prog, deep = args
+    prog, deep = args[0], args[1]
+    backend = args[2] if len(args) > 2 else 'dict'
     try:
-        errs, sig = run(scenario(prog, deep))
+        errs, sig = run(scenario(prog, deep, backend))
     except Exception as exc:    # noqa
         import traceback
         return args, [f'harness exception {exc!r} {traceback.format_exc()[-500:]}'], ()
     return args, errs, sig
 
 
-def bounded_names(label):
+def bounded_names(label, backend='dict'):
     from pyvc.prop import BoundedResult
 
     def fn(tier, seed):
@@ -301,14 +346,19 @@ def bounded_names(label):
             n = rnd.choice((2, 3, 4))
             prog = tuple([rnd.choice(creates) for _ in range(rnd.choice((1, 2, 3)))] + [rnd.choice(o) for _ in range(n)])
             items.append((prog, rnd.random() < 0.2))
+        if backend != 'dict':
+            items = [(p, d, backend) for p, d in items[: (250 if tier == 'quick' else 2500)]]
         with mp.get_context('fork').Pool(16) as pool:
             for args, errs, sig in pool.imap_unordered(_worker, items, chunksize=8):
                 res.evaluations += 1
                 res.distinct.add(sig)
+                if errs and isinstance(errs[0], tuple):
+                    res.fail(f'{label}/{errs[0][0]}', dict(backend=backend, program=[list(x) for x in args[0]]), [errs[0][1]])
+                    errs = [e for e in errs if not isinstance(e, tuple)]
                 if errs:
                     lab = 'list_returns_exactly_the_matching_names' if ('LIST' in errs[0] or 'LSUB' in errs[0]) \
                         else 'namespace_commands_follow_the_model'
-                    res.fail(f'{label}/{lab}', [list(x) for x in args[0]], errs[:3])
+                    res.fail(f'{label}/{lab}', dict(backend=backend, program=[list(x) for x in args[0]]), errs[:3])
                 elif len(res.samples) < 2:
                     res.samples.append(dict(program=[list(x) for x in args[0]], result='agrees'))
         return res
